@@ -22,7 +22,7 @@ func registerC07() {
 			"compressed timestamps, component sources) and data-area byte mutants of both with the file CRC recomputed; for every input Decode accepts: Encode (both byte orders) " +
 			"must not panic or fail, its output must pass CheckIntegrity and decode with the same per-slot message counts and equal field values (strings up to length-1 bytes, " +
 			"arrays up to the profile length and trailing invalids, local times by wall clock), and encoding/decoding the second generation again must reproduce its content exactly. " +
-			"Non-trivial: the input was accepted and has at least one message besides file_id; distinct by input digest",
+			"Family all-types: every file_id.type value 0..255 followed by 200-300 messages drawn from all known messages (whatever container the tree under test has for a type, the harness does not need to know it). Non-trivial: the input was accepted and has at least one message besides file_id; distinct by input digest",
 		Assume: []string{
 			"enhanced_speed is not compared when compressed_speed_distance expands (see C18)",
 			"known finding F12a (Encode rejects strings that are not valid UTF-8) is matched by the error text plus an invalid string actually present in the decoded File",
@@ -32,6 +32,7 @@ func registerC07() {
 			{Name: "device", N: func(string) uint64 { return uint64(len(Corpus())) }, Run: c07Device},
 			{Name: "model", N: func(t string) uint64 { return tierN(t, 5000, 400000) }, Run: c07Model},
 			{Name: "mutated", N: func(t string) uint64 { return tierN(t, 6000, 400000) }, Run: c07Mutated},
+			{Name: "all-types", N: func(t string) uint64 { return 256 * tierN(t, 4, 40) }, Run: c07AllTypes},
 		},
 	})
 }
@@ -61,6 +62,25 @@ func c07Plan(rng *lib.Rand, idx uint64) *ref.Plan {
 		o.Mesgs = nil
 	}
 	return lib.NewPlanGen(rng, o).Fill()
+}
+
+// c07AllTypes: every file_id.type value 0..255 (not only the types this harness knows containers
+// for), each followed by 200-300 messages drawn from every message the library knows, with PRNG
+// field subsets: whatever Decode accepts must be re-encodable.
+func c07AllTypes(c *lib.Ctx, idx uint64) {
+	rng := lib.NewRand("C07.all-types", idx)
+	o := lib.GenOpts{
+		FileType:   byte(idx % 256),
+		Records:    200 + rng.Intn(100),
+		Locals:     1 + rng.Intn(6),
+		Redefine:   40,
+		BigEndian:  50,
+		Unknown:    5,
+		NoTimeZero: true,
+	}
+	b := lib.NewPlanGen(rng, o).Fill().Bytes()
+	c.Count(fmt.Sprintf("all_types_streams_type_%d_mod_8", idx%8), 1)
+	c07Monitor(c, b, fmt.Sprintf("stream with file_id.type %d and messages of every kind", idx%256))
 }
 
 func c07Model(c *lib.Ctx, idx uint64) {
